@@ -80,8 +80,8 @@ pub struct ScanReport {
     pub pre: Vec<Vec<usize>>,
     /// per needle: number of places it is still found after the drop
     pub post: Vec<usize>,
-    /// per needle: whether all bytes at the pre-drop offsets are zero after the drop
-    pub zero_after: Vec<bool>,
+    /// per needle, per pre-drop offset: whether all bytes there are zero after the drop
+    pub zero_after: Vec<Vec<bool>>,
 }
 
 fn find_all(hay: &[u8], needle: &[u8]) -> Vec<usize> {
@@ -113,7 +113,7 @@ pub fn scan_drop<T>(val: T, needles: &[&[u8]]) -> ScanReport {
         let offs = find_all(&pre, nd);
         rep.post.push(find_all(&post, nd).len());
         rep.zero_after
-            .push(offs.iter().all(|&o| post[o..o + nd.len()].iter().all(|b| *b == 0)));
+            .push(offs.iter().map(|&o| post[o..o + nd.len()].iter().all(|b| *b == 0)).collect());
         rep.pre.push(offs);
     }
     rep
